@@ -75,12 +75,6 @@ func (tst *tsTable) runFinalizeRoundNamed(samplers []namedSampler, graceNs int64
 	default:
 	}
 
-	cur := tst.currentSnapshot()
-	if cur == nil {
-		return false, nil
-	}
-	defer cur.decRef()
-
 	gNext := tst.finalizeGenCached.Load() + 1
 	now := tst.mergeNow().UnixNano()
 	// Snapshot the counter at round start. On commit we subtract exactly this much
@@ -102,6 +96,15 @@ func (tst *tsTable) runFinalizeRoundNamed(samplers []namedSampler, graceNs int64
 	var parts []*partWrapper
 	var needBytes uint64
 	tst.inFlightMu.Lock()
+	// The snapshot must be taken under the pin lock: a hot merge un-pins its inputs only
+	// after its introduction is applied, so a snapshot taken here cannot contain parts that
+	// were merged and released already (a stale snapshot would let the round merge them again).
+	cur := tst.currentSnapshot()
+	if cur == nil {
+		tst.inFlightMu.Unlock()
+		return false, nil
+	}
+	defer cur.decRef()
 	if tst.inFlight == nil {
 		tst.inFlight = make(map[uint64]struct{})
 	}
